@@ -7,7 +7,7 @@
 (*  - RandN seeded texts of RandLen words with random separators.          *)
 (* Each request carries the thresholds at which the real code is run.      *)
 (***************************************************************************)
-EXTENDS TextGen, Json, IOUtils
+EXTENDS TextGen, Json, IOUtils, SequencesExt
 
 \* parameters chosen by the orchestrator (tier, VERIF_SEED), passed as a JSON file
 Params == JsonDeserialize(IOEnv.PARAMS)
@@ -23,7 +23,9 @@ Want == Params.want
 Req(L, n, text) == [i |-> n, lang |-> L, texts |-> <<text>>, thrs |-> Thrs, want |-> Want]
 
 ForLang(L, base) ==
-  LET W == Words[L]
+  LET LinkW == IF "linkwords" \in DOMAIN Params /\ Params.linkwords
+               THEN SetToSeq({w \in Linking[L] : \A i \in 1..Len(w) : Ch(w, i) # " "}) ELSE <<>>     \* every linking word of the language (C09)
+      W == Words[L] \o LinkW \o BigParts[L]
       S == SubSeqIdx(Seps, ExSeps)
       n1 == Len(W)
       n2 == ExCount(W, S, ExLen)
